@@ -81,7 +81,9 @@ func genC08(t *rapid.T) C08Case {
 	c.Encoded = h.Encode(xml, g.Pres)
 	l2 := h.GenLayout(g.AllowsComments()).Draw(t, "layout2")
 	xml2, st2 := h.SerializeStats(root, l2)
-	c.Encoded2 = h.Encode(xml2, h.GenPresentation().Draw(t, "pres2"))
+	// the second presentation also varies the base64 TEXT: line-wrapped (LF / CRLF, 76 columns), a trailing line
+	// break, non-zero unused bits — what mail-style encoders and form posts make of the same bytes
+	c.Encoded2 = respell(h.Encode(xml2, h.GenPresentation().Draw(t, "pres2")), rapid.SampledFrom([]string{"canonical", "canonical", "wrapped", "crlf-wrapped", "crlf-wrapped", "trailing-newline", "nonzero-pad-bits", "crlf-64", "crlf-64+final"}).Draw(t, "b64Spelling"))
 	for _, s := range []h.LayoutStats{st, st2} {
 		if s.Comments > 0 {
 			c.Feat = append(c.Feat, "comments")
